@@ -1,10 +1,12 @@
 (* C27 -- row id allocation (useractions.py UserActions.doBulkAddOrReplace, docactions.py
    DocActions.BulkAddRecord / ReplaceTableData, table.py Table.RowIDs / next_row_id).
 
-   The id-filling loop itself is ALSO translated from /repo's source on every run (GristGen.RowIds_gen,
-   harness/py2v_ext.py); Proofs/RowIds_proofs.v proves that translation equal to [fill] below, so every
-   theorem about [fill] is a theorem about the code as it is now.  Everything else in this file is written by
-   hand and compared with the running engine by harness/props/c27.py.
+   The validation loop and the id-filling loop are ALSO translated from /repo's source on every run
+   (GristGen.RowIds_gen, harness/py2v_ext.py); Proofs/RowIds_proofs.v proves that translation equal to [alloc]
+   below, so every theorem about [alloc] is a theorem about the code as it is now.  Everything else in this file
+   is written by hand and compared with the running engine by harness/props/c27.py.
+   History: until fix e346da4 the loop accepted explicit 0, repeated explicit ids, and gave automatic slots ids
+   that a later slot asked for explicitly; the old witnesses are regression Examples in Props/C27.v.
 
    Model only: no proofs here. *)
 From Coq Require Import ZArith List Bool.
@@ -52,33 +54,6 @@ Definition doc_bulk_add (rs : rows) (ids : list Z) : py_result rows :=
 (* DocActions.ReplaceTableData -> Engine.load_table: all columns cleared, then add_records. *)
 Definition doc_replace (ids : list Z) : rows := add_rows [] ids.
 
-(* ---- the id-filling loop, as coded ------------------------------------------------------------------ *)
-
-(*  for i, row_id in enumerate(filled_row_ids):
-      if row_id is None or row_id < 0:  filled_row_ids[i] = row_id = next_row_id
-      elif row_id > 1000000:            raise ValueError("Row ID too high")
-      next_row_id = max(next_row_id, row_id) + 1                                                         *)
-Definition fill_one (next : Z) (r : rid) : py_result Z :=
-  match r with
-  | None => PyOk next
-  | Some z => if z <? 0 then PyOk next
-              else if z >? MAX_ROW_ID then PyErr PyValueError
-              else PyOk z
-  end.
-
-Fixpoint fill (next : Z) (req : list rid) : py_result (list Z) :=
-  match req with
-  | [] => PyOk []
-  | r :: t =>
-      match fill_one next r with
-      | PyErr e => PyErr e
-      | PyOk v => match fill (Z.max next v + 1) t with
-                  | PyOk l => PyOk (v :: l)
-                  | PyErr e => PyErr e
-                  end
-      end
-  end.
-
 (* What the caller sees: the returned ids and the table's row ids afterwards, or the exception (the engine
    then rolls the bundle back: the table is as before). *)
 Inductive outcome : Type :=
@@ -95,15 +70,7 @@ Definition finish (replace : bool) (rs : rows) (out : list Z) : outcome :=
        | PyErr e => Rejected e
        end.
 
-(* UserActions.doBulkAddOrReplace on the unchanged source (BulkAddRecord / AddRecord: replace = false;
-   ReplaceTableData: replace = true) *)
-Definition do_bulk_add_or_replace (replace : bool) (rs : rows) (req : list rid) : outcome :=
-  match fill (if replace then 1 else next_row_id rs) req with
-  | PyErr e => Rejected e
-  | PyOk out => finish replace rs out
-  end.
-
-(* ---- the repaired loop (notes/proposed_fixes/C27-rowid-validation.diff) ------------------------------ *)
+(* ---- validation of the requested ids and the id-filling loop, as coded (since fix e346da4) ----------- *)
 
 (*  seen = set()
     for row_id in row_ids:
@@ -113,16 +80,16 @@ Definition do_bulk_add_or_replace (replace : bool) (rs : rows) (req : list rid) 
       seen.add(row_id)
       next_row_id = max(next_row_id, row_id + 1)
     (an id that is already in use is still refused by the doc action's assertion)                        *)
-Fixpoint validate_fixed (seen : list Z) (next : Z) (req : list rid) : py_result Z :=
+Fixpoint validate_ids (seen : list Z) (next : Z) (req : list rid) : py_result Z :=
   match req with
   | [] => PyOk next
   | r :: t =>
       match explicit r with
-      | None => validate_fixed seen next t
+      | None => validate_ids seen next t
       | Some z =>
           if z >? MAX_ROW_ID then PyErr PyValueError
           else if (z =? 0) || py_mem Z.eqb z seen then PyErr PyValueError
-          else validate_fixed (seen ++ [z]) (Z.max next (z + 1)) t
+          else validate_ids (seen ++ [z]) (Z.max next (z + 1)) t
       end
   end.
 
@@ -139,10 +106,18 @@ Fixpoint fill_autos (next : Z) (req : list rid) : list Z :=
               end
   end.
 
-Definition do_bulk_add_or_replace_fixed (replace : bool) (rs : rows) (req : list rid) : outcome :=
-  match validate_fixed [] (if replace then 1 else next_row_id rs) req with
+(* both loops: what the translated fragment computes from (row_ids, next_row_id) *)
+Definition alloc (next : Z) (req : list rid) : py_result (list Z) :=
+  match validate_ids [] next req with
+  | PyOk next' => PyOk (fill_autos next' req)
+  | PyErr e => PyErr e
+  end.
+
+(* UserActions.doBulkAddOrReplace (BulkAddRecord / AddRecord: replace = false; ReplaceTableData: replace = true) *)
+Definition do_bulk_add_or_replace (replace : bool) (rs : rows) (req : list rid) : outcome :=
+  match alloc (if replace then 1 else next_row_id rs) req with
   | PyErr e => Rejected e
-  | PyOk next => finish replace rs (fill_autos next req)
+  | PyOk out => finish replace rs out
   end.
 
 (* ---- the property (C27), stated for any implementation f of the user action ------------------------- *)
@@ -183,25 +158,6 @@ Definition alloc_full (f : bool -> rows -> list rid -> outcome) : Prop :=
 
 Definition rejects_full (f : bool -> rows -> list rid -> outcome) : Prop :=
   forall replace rs req, wf_rows rs -> rejects_statement (f replace) (negb replace) rs req.
-
-(* ---- hypotheses that exclude the defects of the unchanged loop -------------------------------------- *)
-
-(* No explicit id equals an automatic id handed out EARLIER in the same request (autos = those so far). *)
-Fixpoint clash_free (next : Z) (autos : list Z) (req : list rid) : bool :=
-  match req with
-  | [] => true
-  | r :: t => match explicit r with
-              | None => clash_free (next + 1) (next :: autos) t
-              | Some z => negb (py_mem Z.eqb z autos) && clash_free (Z.max next z + 1) autos t
-              end
-  end.
-
-(* A simple sufficient shape: all explicit ids come before the first automatic slot. *)
-Fixpoint explicit_first (req : list rid) : bool :=
-  match req with
-  | [] => true
-  | r :: t => if is_auto r then forallb is_auto t else explicit_first t
-  end.
 
 (* boolean forms used by the correspondence check and the examples *)
 Fixpoint nodupb (l : list Z) : bool :=
